@@ -14,8 +14,8 @@ theorem complete_unfold (isReq : Bool) (dec : DecKind) (fuel : Nat) (p rest : By
       (if rest.length < be32 (p.drop 1) then []
        else
         Msg.data (some ⟨(p.headD 0).toNat, be32 (p.drop 1)⟩) (be32 (p.drop 1)) ::
-          (if !isReq && isEndFlag (p.headD 0).toNat && be32 (p.drop 1) != 0 && !(dec.content (rest.take (be32 (p.drop 1)))).isEmpty
-            then [Msg.eos (dec.content (rest.take (be32 (p.drop 1))))] else []) ++
+          (if !isReq && isEndFlag (p.headD 0).toNat && be32 (p.drop 1) != 0 && !(dec.contentF (p.headD 0).toNat (rest.take (be32 (p.drop 1)))).isEmpty
+            then [Msg.eos (dec.contentF (p.headD 0).toNat (rest.take (be32 (p.drop 1))))] else []) ++
           completeMsgsAux isReq dec fuel (rest.drop (be32 (p.drop 1)))) := by
   match p, hp with
   | [a, b, c, d, e], _ =>
@@ -69,7 +69,7 @@ theorem run_init_complete (c : DCfg) : ∀ (fuel : Nat) (body : Bytes), body.len
           congr 1
           congr 1
           by_cases hf : (!c.isReq && isEndFlag fl) = true
-          · cases hcont : (c.dec.content m).isEmpty <;> simp [hf, hcont, hnz, DEv.msg]
+          · cases hcont : (c.dec.contentF fl m).isEmpty <;> simp [hf, hcont, hnz, DEv.msg]
           · have hf' : (!c.isReq && isEndFlag fl) = false := by simpa using hf
             simp [hf', hf]
 
